@@ -37,6 +37,31 @@
 (*                   again: it stays, for a paused or deleted task)             *)
 (*     BarrierExits  the barrier goroutine ends when its close channel is       *)
 (*                   closed (repaired in /repo by f48cb71; FALSE = spins)       *)
+(*     IntPauseAtomic an internal pause (pauseTaskWithReason without a state    *)
+(*                   guard: error event of the reader machinery, ReloadTask     *)
+(*                   parking a task) whose store update failed does not touch   *)
+(*                   memory and readers - an error event then leaves the task   *)
+(*                   running, the reload repeats the update (as found: memory   *)
+(*                   -> Paused, readers stopped, store and gauges keep the old  *)
+(*                   state)                                                     *)
+(*     GaugeDeleteFirst  TaskNumMetric.UpdateState removes the task from the    *)
+(*                   old state's set and then inserts it into the new one (the  *)
+(*                   code; FALSE = insert first, delete second: a same-state    *)
+(*                   update Paused -> Paused erases the task from the gauges -  *)
+(*                   seeded change C11/m2, kept as a vacuity probe of the       *)
+(*                   "pause of an already paused task" histories)               *)
+(* Internal pauses.  Besides the API calls two things drive the state machine:  *)
+(*   Restart(k): process restart + ReloadTask with the k-th store call AFTER    *)
+(*     the initial task list failing (the list read itself panics by design).   *)
+(*     Per task in id order: a DisableAutoStart task that is not Paused is      *)
+(*     paused (Get, Put); any other task is started (startInternal: Get         *)
+(*     positions | Get, Put state unless persisted Running) and, if that        *)
+(*     fails, parked with an unguarded pause (Get, Put) - for a task persisted  *)
+(*     as Paused this is a pause of an already paused task.                     *)
+(*   ErrEvent(t, k): the reader machinery of t's target reports a failure for   *)
+(*     t on the entity's event channel; the entity's event loop pauses t        *)
+(*     without a state guard (Get, Put; k-th fails) - whatever t's state is,    *)
+(*     also Paused or deleted - and ends (evl).                                 *)
 (* Contract part: ghost variables cst (abstract task state), prev, last and the *)
 (*   invariants the property statement demands.                                 *)
 EXTENDS Integers, Sequences, FiniteSets, TLC, Json
@@ -50,7 +75,11 @@ CONSTANTS Tasks,          \* {"t1", "t2"}
           MaxHolds,       \* starts during which the MQ registration is held back (a slow MQ), released by a later "release" step
           MaxNoops,       \* requests that cannot have an effect (unknown / already existing task, pause of a paused, resume of a running task)
           WithSettle,     \* TRUE: "settle" (>= 1 s pass) may occur, at most once
-          PauseAtomic, StartRollback, EntityGC, PollerExits, SharedKept, JoinedStopped, LateRegisterChecked, BarrierExits
+          MaxErrs,        \* error events of the reader machinery per history
+          FaultsAt,       \* "any": a store fault may hit any call; "internal": only the reload and the pause of an error event
+                          \* (plan configurations that concentrate on the internal pauses)
+          PauseAtomic, StartRollback, EntityGC, PollerExits, SharedKept, JoinedStopped, LateRegisterChecked, BarrierExits,
+          IntPauseAtomic, GaugeDeleteFirst
 
 Targets == {"a1", "a2"}
 \* DisableAutoStart flag of the create request, fixed per task: t1 disabled, t2 enabled
@@ -77,6 +106,7 @@ VARIABLES
   held,             \* [Tasks -> BOOLEAN]: the MQ registration of the task's streams is pending (blocked in the MQ client)
   settled,          \* [Targets -> BOOLEAN]: the entity's channel poller has obtained its channel list
   own,              \* [Targets -> Tasks \cup {"none"}]: whose collection created the handler of the shared physical channel (internal)
+  evl,              \* [Targets -> BOOLEAN]: the event loop of the target's entity is alive (it ends with the entity and after an error event; internal)
   zomb,             \* [Targets -> Nat]: goroutines of released entities of the target that are still alive
   busy,             \* Nat: spinning goroutines
   \* ---- ghost / contract
@@ -85,15 +115,15 @@ VARIABLES
   last,             \* the last call and its result
   quietSeen,        \* a pause/delete succeeded or a restart left a task paused
   illegalOK,        \* an illegal request was answered with success
-  nf, nr, np, ns, nn, nh, \* faults / restarts / probes / settles / no-op requests / holds used
+  nf, nr, np, ns, nn, nh, ne, \* faults / restarts / probes / settles / no-op requests / holds / error events used
   hist
 
 Tgt(t) == IF same \/ t = "t1" THEN "a1" ELSE "a2"
 
-obsvars == <<stored, mem, apiG, apiL, gset, gcnt, nck, ent, quit, reg, aux, skok, held, settled, own, zomb, busy>>
+obsvars == <<stored, mem, apiG, apiL, gset, gcnt, nck, ent, quit, reg, aux, skok, held, settled, own, evl, zomb, busy>>
 ghostvars == <<cst, prev, last, quietSeen, illegalOK>>
-vars == <<same, obsvars, ghostvars, nf, nr, np, ns, nn, nh, hist>>
-view == <<same, obsvars, ghostvars, nf, nr, np, ns, nn, nh, Len(hist)>>
+vars == <<same, obsvars, ghostvars, nf, nr, np, ns, nn, nh, ne, hist>>
+view == <<same, obsvars, ghostvars, nf, nr, np, ns, nn, nh, ne, Len(hist)>>
 
 None == [t \in Tasks |-> "none"]
 NoLast == [op |-> "init", task |-> "", ok |-> TRUE, fired |-> FALSE, val |-> ""]
@@ -107,9 +137,10 @@ Init ==
   /\ reg = [t \in Tasks |-> 0] /\ aux = [t \in Tasks |-> FALSE] /\ skok = [t \in Tasks |-> TRUE]
   /\ held = [t \in Tasks |-> FALSE]
   /\ settled = [a \in Targets |-> FALSE] /\ own = [a \in Targets |-> "none"] /\ zomb = [a \in Targets |-> 0] /\ busy = 0
+  /\ evl = [a \in Targets |-> FALSE]
   /\ cst = None /\ prev = [reg |-> reg, nck |-> nck, cst |-> cst] /\ last = NoLast
   /\ quietSeen = FALSE /\ illegalOK = FALSE
-  /\ nf = 0 /\ nr = 0 /\ np = 0 /\ ns = 0 /\ nn = 0 /\ nh = 0 /\ hist = <<>>
+  /\ nf = 0 /\ nr = 0 /\ np = 0 /\ ns = 0 /\ nn = 0 /\ nh = 0 /\ ne = 0 /\ hist = <<>>
 
 Min(a, b) == IF a < b THEN a ELSE b
 Other(t) == CHOOSE u \in Tasks : u # t
@@ -139,10 +170,18 @@ GhostWith(newcst, op, t, ok, fired, val) ==
 
 Ghost(op, t, ok, fired, val) == GhostWith(NextCst(op, t, ok), op, t, ok, fired, val)
 
-GhostRestart(newcst) ==
+\* an internal pause of t by an error event: newcst differs from cst at most in t going Running -> Paused
+GhostErr(newcst, t, ok, fired) ==
   /\ cst' = newcst
   /\ prev' = [reg |-> reg, nck |-> nck, cst |-> cst]
-  /\ last' = [op |-> "restart", task |-> "", ok |-> TRUE, fired |-> FALSE, val |-> ""]
+  /\ last' = [op |-> "err", task |-> t, ok |-> ok, fired |-> fired, val |-> ""]
+  /\ quietSeen' = (quietSeen \/ (cst[t] = "Running" /\ newcst[t] = "Paused"))
+  /\ illegalOK' = illegalOK
+
+GhostRestart(newcst, fired) ==
+  /\ cst' = newcst
+  /\ prev' = [reg |-> reg, nck |-> nck, cst |-> cst]
+  /\ last' = [op |-> "restart", task |-> "", ok |-> TRUE, fired |-> fired, val |-> ""]
   /\ quietSeen' = (\E t \in Tasks : newcst[t] = "Paused")   \* a restarted process has no history of its own
   /\ illegalOK' = illegalOK
 
@@ -155,14 +194,14 @@ GhostSettle ==
 (* design: helpers on the resource part                                       *)
 (* ------------------------------------------------------------------------ *)
 \* record of the mutable resource variables, threaded through the helper operators
-Res == [ent |-> ent, quit |-> quit, reg |-> reg, aux |-> aux, held |-> held, settled |-> settled, own |-> own, zomb |-> zomb, busy |-> busy]
+Res == [ent |-> ent, quit |-> quit, reg |-> reg, aux |-> aux, held |-> held, settled |-> settled, own |-> own, evl |-> evl, zomb |-> zomb, busy |-> busy]
 
 EnsureEntity(r, a) ==
   IF r.ent[a] >= 0 THEN r
-  ELSE [r EXCEPT !.ent[a] = 0, !.settled[a] = FALSE, !.own[a] = "none"]
+  ELSE [r EXCEPT !.ent[a] = 0, !.settled[a] = FALSE, !.own[a] = "none", !.evl[a] = TRUE]
 
 Release(r, a) ==
-  [r EXCEPT !.ent[a] = -1,
+  [r EXCEPT !.ent[a] = -1, !.evl[a] = FALSE,
             !.zomb[a] = IF ~r.settled[a] /\ ~PollerExits THEN Min(@ + 1, 2) ELSE @]
 
 \* quit func of t (collectionReader.QuitRead, channelReader.QuitRead) + refcount decrement + release at 0
@@ -194,12 +233,24 @@ Read(r, t) == [r EXCEPT !.reg[t] = Shards(t), !.aux[t] = TRUE,
 \* the same with a slow MQ: the registrations are made by background goroutines that are still blocked
 ReadH(r, t, h) == IF h THEN [Read(r, t) EXCEPT !.reg[t] = 0, !.held[t] = TRUE] ELSE Read(r, t)
 
+\* what a start leaves behind when its store call fails: f = 1 the checkpoint read (before anything is attached),
+\* f >= 2 the state update (after the readers were made)
+StartFail(r0, t, f) ==
+  LET a == Tgt(t) IN
+  IF f = 1 THEN (IF EntityGC /\ r0.ent[a] = 0 THEN Release(r0, a) ELSE r0)
+  ELSE IF StartRollback THEN (IF r0.ent[a] = 0 THEN Release(r0, a) ELSE r0)
+  ELSE Attach(r0, t)
+
 SetRes(r) ==
   /\ ent' = r.ent /\ quit' = r.quit /\ reg' = r.reg /\ aux' = r.aux
-  /\ held' = r.held /\ settled' = r.settled /\ own' = r.own /\ zomb' = r.zomb /\ busy' = r.busy
+  /\ held' = r.held /\ settled' = r.settled /\ own' = r.own /\ evl' = r.evl /\ zomb' = r.zomb /\ busy' = r.busy
 
 \* store.UpdateTaskState's gauge update: move the task from the stored (old) state's set to the new one
-GaugeMove(gs, t, old, new) == IF old \in gs[t] THEN [gs EXCEPT ![t] = (@ \ {old}) \cup {new}] ELSE gs
+\* (old = new for an internal pause of a paused task: the two sets are one and the same)
+GaugeMove(gs, t, old, new) ==
+  IF old \in gs[t]
+    THEN [gs EXCEPT ![t] = IF GaugeDeleteFirst THEN (@ \ {old}) \cup {new} ELSE (@ \cup {new}) \ {old}]
+    ELSE gs
 
 SetStore(st, gs, n) ==
   /\ stored' = st /\ apiG' = st /\ apiL' = st
@@ -221,7 +272,7 @@ Create(t, k, h) ==
                    /\ UNCHANGED <<obsvars>>
               [] k = 3 ->                                      \* the position record stays behind (not C11's business)
                    /\ SetStore(stored, gset, [nck EXCEPT ![t] = 1])
-                   /\ UNCHANGED <<mem, ent, quit, reg, aux, skok, held, settled, own, zomb, busy>>
+                   /\ UNCHANGED <<mem, ent, quit, reg, aux, skok, held, settled, own, evl, zomb, busy>>
               [] k \in {4, 5, 6} ->                            \* started half-way, then deleted again
                    /\ SetStore(stored, gset, [nck EXCEPT ![t] = 0])
                    /\ mem' = mem /\ skok' = skok
@@ -264,12 +315,10 @@ Resume(t, k, h) ==
          /\ k \in 0..3 /\ (h => ~fail) /\ ~held[t]
          /\ IF k = 1
               THEN /\ UNCHANGED <<stored, mem, apiG, apiL, gset, gcnt, nck, skok>>
-                   /\ SetRes(IF EntityGC /\ r0.ent[a] = 0 THEN Release(r0, a) ELSE r0)
+                   /\ SetRes(StartFail(r0, t, 1))
               ELSE IF fail
                      THEN /\ UNCHANGED <<stored, mem, apiG, apiL, gset, gcnt, nck, skok>>
-                          /\ SetRes(IF StartRollback
-                                      THEN (IF r0.ent[a] = 0 THEN Release(r0, a) ELSE r0)
-                                      ELSE Attach(r0, t))
+                          /\ SetRes(StartFail(r0, t, 2))
                      ELSE /\ SetStore([stored EXCEPT ![t] = "Running"], GaugeMove(gset, t, stored[t], "Running"), nck)
                           /\ mem' = [mem EXCEPT ![t] = "Running"] /\ skok' = skok
                           /\ SetRes(ReadH(Attach(r0, t), t, h))
@@ -299,34 +348,82 @@ List(k) ==
   /\ UNCHANGED <<obsvars>>
   /\ Ghost("list", "", k = 0, k # 0, "")
 
-\* process restart + ReloadTask (no faults): tasks in id order; DisableAutoStart => paused, else started
-ReloadOne(t, S) ==   \* S = [st, gs, mem, r]
-  IF S.st[t] = "none" THEN S
-  ELSE LET S1 == [S EXCEPT !.mem[t] = S.st[t], !.gs[t] = {S.st[t]}] IN
-       IF Das(t)
-         THEN IF S1.st[t] = "Paused" THEN S1
-              ELSE [S1 EXCEPT !.gs = GaugeMove(S1.gs, t, S1.st[t], "Paused"), !.st[t] = "Paused", !.mem[t] = "Paused"]
-         ELSE [S1 EXCEPT !.gs = GaugeMove(S1.gs, t, S1.st[t], "Running"), !.st[t] = "Running", !.mem[t] = "Running",
-                         !.r = Read(Attach(EnsureEntity(S1.r, Tgt(t)), t), t)]
+\* process restart + ReloadTask, the k-th store call after the task list failing (0 = none); tasks in id order.
+\* S = [st, gs, mem, r, n, fired, c]: store / gauge sets / memory / resources so far, store calls made so far,
+\* the fault has fired, ghost state of the tasks handled so far
+Hit(S, i, k) == k # 0 /\ k = S.n + i       \* the i-th store call from now is the failing one
 
-Restart ==
+ReloadOne(t, S, k) ==
+  IF S.st[t] = "none" THEN S
+  ELSE
+    LET a  == Tgt(t)
+        s0 == S.st[t]
+        S1 == [S EXCEPT !.mem[t] = s0, !.gs[t] = {s0}]        \* cdcTasks entry, TaskNumVec.Add
+    IN
+    IF Das(t)
+      THEN IF s0 = "Paused" THEN [S1 EXCEPT !.c[t] = "Paused"]
+           ELSE \* pauseTaskWithReason without a guard: 1 Get 2 Put
+                LET f == IF Hit(S, 1, k) THEN 1 ELSE IF Hit(S, 2, k) THEN 2 ELSE 0 IN
+                IF f # 0 /\ ~IntPauseAtomic
+                  THEN [S1 EXCEPT !.mem[t] = "Paused", !.n = @ + f, !.fired = TRUE, !.c[t] = "Paused",
+                                  !.r = StopTask(S1.r, t)]
+                  ELSE [S1 EXCEPT !.gs = GaugeMove(S1.gs, t, s0, "Paused"), !.st[t] = "Paused", !.mem[t] = "Paused",
+                                  !.n = @ + 2, !.fired = @ \/ f # 0, !.c[t] = "Paused", !.r = StopTask(S1.r, t)]
+      ELSE \* startInternal(info, ignoreUpdateState = persisted Running): 1 Get(positions) [2 Get 3 Put (state)]
+           LET ign == s0 = "Running"
+               r0  == EnsureEntity(S1.r, a)
+               f   == IF Hit(S, 1, k) THEN 1
+                      ELSE IF ~ign /\ Hit(S, 2, k) THEN 2
+                      ELSE IF ~ign /\ Hit(S, 3, k) THEN 3 ELSE 0
+           IN IF f = 0
+                THEN [S1 EXCEPT !.gs = IF ign THEN @ ELSE GaugeMove(@, t, s0, "Running"),
+                                !.st[t] = "Running", !.mem[t] = "Running",
+                                !.n = @ + (IF ign THEN 1 ELSE 3), !.c[t] = "Running",
+                                !.r = Read(Attach(r0, t), t)]
+                ELSE \* the start failed: the task is parked by pauseTaskWithReason without a guard (Get, Put) -
+                     \* for a task persisted as Paused a pause of an already paused task
+                     [S1 EXCEPT !.gs = GaugeMove(@, t, s0, "Paused"), !.st[t] = "Paused", !.mem[t] = "Paused",
+                                !.n = @ + f + 2, !.fired = TRUE, !.c[t] = "Paused",
+                                !.r = StopTask(StartFail(r0, t, f), t)]
+
+Restart(k) ==
   LET fresh == [ent |-> [a \in Targets |-> -1], quit |-> [t \in Tasks |-> FALSE], reg |-> [t \in Tasks |-> 0],
                 aux |-> [t \in Tasks |-> FALSE], held |-> [t \in Tasks |-> FALSE],
                 settled |-> [a \in Targets |-> FALSE],
-                own |-> [a \in Targets |-> "none"],
+                own |-> [a \in Targets |-> "none"], evl |-> [a \in Targets |-> FALSE],
                 zomb |-> [a \in Targets |-> 0], busy |-> 0]
-      S0 == [st |-> stored, gs |-> [t \in Tasks |-> {}], mem |-> None, r |-> fresh]
-      S1 == ReloadOne("t1", S0)
-      S2 == ReloadOne("t2", S1)
-  IN /\ SetStore(S2.st, S2.gs, nck)
+      S0 == [st |-> stored, gs |-> [t \in Tasks |-> {}], mem |-> None, r |-> fresh, n |-> 0, fired |-> FALSE, c |-> None]
+      S1 == ReloadOne("t1", S0, k)
+      S2 == ReloadOne("t2", S1, k)
+      flag(t) == IF Das(t) THEN "Paused" ELSE "Running"
+  IN /\ k \in 0..5 /\ (k # 0 => S2.fired)            \* a fault index beyond the calls made is no fault
+     /\ SetStore(S2.st, S2.gs, nck)
      /\ mem' = S2.mem /\ skok' = skok
      /\ SetRes(S2.r)
-     /\ GhostRestart([t \in Tasks |-> IF cst[t] = "none" THEN "none" ELSE IF Das(t) THEN "Paused" ELSE "Running"])
+     /\ GhostRestart([t \in Tasks |-> IF cst[t] = "none" THEN "none" ELSE IF S2.c[t] = "none" THEN flag(t) ELSE S2.c[t]],
+                     S2.fired)
+
+\* the reader machinery of t's target reports a failure for t (ReplicateError on the entity's event channel): the
+\* entity's event loop calls pauseTaskWithReason without a guard - UpdateTaskState(Paused, []): 1 Get 2 Put - whatever
+\* the state of t is, and ends.  A task unknown to the store / memory is left alone by the respective half.
+ErrEvent(t, k) ==
+  LET a    == Tgt(t)
+      fail == k # 0 \/ stored[t] = "none"
+      took == mem[t] # "none" /\ (~fail \/ ~IntPauseAtomic)      \* memory -> Paused, quit func, refcount
+      r1   == IF took THEN StopTask(Res, t) ELSE Res
+  IN /\ ent[a] >= 0 /\ evl[a]
+     /\ k \in 0..2 /\ (k = 2 => stored[t] # "none")
+     /\ IF ~fail
+          THEN SetStore([stored EXCEPT ![t] = "Paused"], GaugeMove(gset, t, stored[t], "Paused"), nck)
+          ELSE UNCHANGED <<stored, apiG, apiL, gset, gcnt, nck>>
+     /\ mem' = (IF took THEN [mem EXCEPT ![t] = "Paused"] ELSE mem) /\ skok' = skok
+     /\ SetRes([r1 EXCEPT !.evl[a] = FALSE])
+     /\ GhostErr(IF cst[t] = "Running" /\ ~fail THEN [cst EXCEPT ![t] = "Paused"] ELSE cst, t, ~fail, k # 0)
 
 \* at least one second passes: pollers of live entities obtain their channel list; pollers left behind by a
 \* released entity end as soon as a new entity of the same target has a channel list
 Settle ==
-  /\ UNCHANGED <<stored, mem, apiG, apiL, gset, gcnt, nck, ent, quit, reg, aux, skok, held, own, busy>>
+  /\ UNCHANGED <<stored, mem, apiG, apiL, gset, gcnt, nck, ent, quit, reg, aux, skok, held, own, evl, busy>>
   /\ settled' = [a \in Targets |-> settled[a] \/ ent[a] > 0]
   /\ zomb' = [a \in Targets |-> IF ent[a] > 0 THEN 0 ELSE zomb[a]]
   /\ GhostSettle
@@ -334,7 +431,7 @@ Settle ==
 \* the MQ lets the pending registrations of t's streams through
 ReleaseHold(t) ==
   /\ held[t]
-  /\ UNCHANGED <<stored, mem, apiG, apiL, gset, gcnt, nck, ent, quit, skok, settled, own, zomb, busy>>
+  /\ UNCHANGED <<stored, mem, apiG, apiL, gset, gcnt, nck, ent, quit, skok, settled, own, evl, zomb, busy>>
   /\ held' = [held EXCEPT ![t] = FALSE]
   /\ IF mem[t] = "Running" /\ quit[t]
        THEN reg' = [reg EXCEPT ![t] = Shards(t)] /\ aux' = aux
@@ -351,7 +448,7 @@ Step(h) == hist' = Append(hist, h)
 \* a request that cannot have an effect in the current (memory) state
 Noop(op, t) ==
   \/ op = "create" /\ mem[t] # "none"
-  \/ op \in {"pause", "resume", "delete", "get"} /\ mem[t] = "none"
+  \/ op \in {"pause", "resume", "delete", "get", "err"} /\ mem[t] = "none"
   \/ op = "pause" /\ mem[t] = "Paused"
   \/ op = "resume" /\ mem[t] = "Running"
 CountNoop(op, t) == /\ (Noop(op, t) => nn < MaxNoops) /\ nn' = nn + (IF Noop(op, t) THEN 1 ELSE 0)
@@ -359,27 +456,34 @@ CountNoop(op, t) == /\ (Noop(op, t) => nn < MaxNoops) /\ nn' = nn + (IF Noop(op,
 Next ==
   /\ Len(hist) < MaxOps /\ same' = same
   /\ \/ \E t \in Tasks, k \in 0..6, h \in BOOLEAN :
-          /\ (k # 0 => nf < MaxFaults) /\ nf' = nf + (IF k # 0 THEN 1 ELSE 0)
+          /\ (k # 0 => nf < MaxFaults /\ FaultsAt = "any") /\ nf' = nf + (IF k # 0 THEN 1 ELSE 0)
           /\ (h => nh < MaxHolds) /\ nh' = nh + (IF h THEN 1 ELSE 0)
-          /\ UNCHANGED <<nr, np, ns>>
+          /\ UNCHANGED <<nr, np, ns, ne>>
           /\ \/ Create(t, k, h) /\ CountNoop("create", t) /\ Step([op |-> "create", task |-> t, das |-> Das(t), k |-> k, hold |-> h])
              \/ Resume(t, k, h) /\ CountNoop("resume", t) /\ Step([op |-> "resume", task |-> t, das |-> FALSE, k |-> k, hold |-> h])
              \/ ~h /\ Pause(t, k)  /\ CountNoop("pause", t)  /\ Step([op |-> "pause", task |-> t, das |-> FALSE, k |-> k, hold |-> FALSE])
              \/ ~h /\ Delete(t, k) /\ CountNoop("delete", t) /\ Step([op |-> "delete", task |-> t, das |-> FALSE, k |-> k, hold |-> FALSE])
      \/ \E t \in Tasks, k \in 0..1 :
           /\ np < MaxProbes /\ np' = np + 1
-          /\ (k # 0 => nf < MaxFaults) /\ nf' = nf + (IF k # 0 THEN 1 ELSE 0)
-          /\ UNCHANGED <<nr, ns, nh>>
+          /\ (k # 0 => nf < MaxFaults /\ FaultsAt = "any") /\ nf' = nf + (IF k # 0 THEN 1 ELSE 0)
+          /\ UNCHANGED <<nr, ns, nh, ne>>
           /\ \/ Get(t, k) /\ CountNoop("get", t) /\ Step([op |-> "get", task |-> t, das |-> FALSE, k |-> k, hold |-> FALSE])
              \/ t = "t1" /\ List(k) /\ nn' = nn /\ Step([op |-> "list", task |-> "", das |-> FALSE, k |-> k, hold |-> FALSE])
-     \/ /\ nr < MaxRestarts /\ nr' = nr + 1 /\ UNCHANGED <<nf, np, ns, nn, nh>>
-        /\ \E t \in Tasks : stored[t] # "none"
-        /\ Restart /\ Step([op |-> "restart", task |-> "", das |-> FALSE, k |-> 0, hold |-> FALSE])
-     \/ /\ WithSettle /\ ns < 1 /\ ns' = ns + 1 /\ UNCHANGED <<nf, np, nr, nn, nh>>
+     \/ \E k \in 0..5 :
+          /\ nr < MaxRestarts /\ nr' = nr + 1 /\ UNCHANGED <<np, ns, nn, nh, ne>>
+          /\ (k # 0 => nf < MaxFaults) /\ nf' = nf + (IF k # 0 THEN 1 ELSE 0)
+          /\ \E t \in Tasks : stored[t] # "none"
+          /\ Restart(k) /\ Step([op |-> "restart", task |-> "", das |-> FALSE, k |-> k, hold |-> FALSE])
+     \/ \E t \in Tasks, k \in 0..2 :
+          /\ ne < MaxErrs /\ ne' = ne + 1 /\ UNCHANGED <<nr, np, ns, nh>>
+          /\ (k # 0 => nf < MaxFaults) /\ nf' = nf + (IF k # 0 THEN 1 ELSE 0)
+          /\ ErrEvent(t, k) /\ CountNoop("err", t)
+          /\ Step([op |-> "err", task |-> t, das |-> FALSE, k |-> k, hold |-> FALSE])
+     \/ /\ WithSettle /\ ns < 1 /\ ns' = ns + 1 /\ UNCHANGED <<nf, np, nr, nn, nh, ne>>
         /\ \E a \in Targets : ent[a] >= 0 \/ zomb[a] > 0
         /\ Settle /\ Step([op |-> "settle", task |-> "", das |-> FALSE, k |-> 0, hold |-> FALSE])
      \/ \E t \in Tasks :
-          /\ ReleaseHold(t) /\ UNCHANGED <<nf, np, nr, ns, nn, nh>>
+          /\ ReleaseHold(t) /\ UNCHANGED <<nf, np, nr, ns, nn, nh, ne>>
           /\ Step([op |-> "release", task |-> t, das |-> FALSE, k |-> 0, hold |-> FALSE])
 
 Spec == Init /\ [][Next]_vars
@@ -406,7 +510,7 @@ OnlyLegalTransitions ==
 
 \* a lifecycle call on one task leaves the readers of the others alone
 OthersUntouchedX(XR) ==
-  last.op \in {"create", "pause", "resume", "delete", "get", "list", "settle", "release"} =>
+  last.op \in {"create", "pause", "resume", "delete", "get", "list", "settle", "release", "err"} =>
      \A u \in Tasks \ XR : u # last.task => reg[u] = prev.reg[u]
 
 \* a paused or deleted task has no readers and holds no share of its target's entity;
@@ -427,11 +531,15 @@ DeleteRemovesAll ==
                           THEN stored[last.task] = "none" /\ nck[last.task] = 0
                           ELSE nck[last.task] = prev.nck[last.task]
 
-\* every persisted task is reloaded with its checkpoints and runs / stays paused according to its flag
+\* every persisted task is reloaded with its checkpoints and runs / stays paused according to its flag; what a
+\* reload does when a store call fails under it is left open by the statement: any state, the same in every
+\* view and with the resources that go with it (the other invariants)
 ReloadHonoursAutoStart ==
   last.op = "restart" =>
      \A t \in Tasks : /\ nck[t] = prev.nck[t]
-                      /\ cst[t] = IF prev.cst[t] = "none" THEN "none" ELSE IF Das(t) THEN "Paused" ELSE "Running"
+                      /\ IF prev.cst[t] = "none" THEN cst[t] = "none"
+                         ELSE IF last.fired THEN cst[t] \in {"Running", "Paused"}
+                         ELSE cst[t] = IF Das(t) THEN "Paused" ELSE "Running"
 
 ContractX(XT, XA, XR, XQ) ==
             /\ ViewsAgreeX(XT) /\ OnlyLegalTransitions /\ OthersUntouchedX(XR \cup XQ) /\ PausedIsQuietX(XT \cup XQ, XA)
@@ -447,7 +555,7 @@ TypeOK ==
   /\ stored \in [Tasks -> TStates] /\ mem \in [Tasks -> TStates] /\ cst \in [Tasks -> TStates]
   /\ \A t \in Tasks : gset[t] \subseteq GStates /\ nck[t] \in 0..1 /\ reg[t] \in 0..2
   /\ \A a \in Targets : own[a] \in Tasks \cup {"none"}
-  /\ held \in [Tasks -> BOOLEAN]
+  /\ held \in [Tasks -> BOOLEAN] /\ evl \in [Targets -> BOOLEAN]
   /\ \A a \in Targets : ent[a] \in -1..3 /\ zomb[a] \in 0..2
   /\ busy \in 0..2
 
